@@ -65,6 +65,10 @@ type h3 struct {
 	baseConfig func() *Config // when set, servers are configured from this instead of NewDefaultConfig (and telemetry is left as it says)
 	verbose    bool
 	logHits    map[string]int // server log messages of interest, counted over all servers
+	// fallbackHW: the high watermarks that followers have cut their logs back to after failing to ask their
+	// leader (the server logs "Truncating log for partition ... to HW n" only when that removes something);
+	// the recorded finding ".../after-hw-fallback-truncation" can only concern offsets above one of them
+	fallbackHW *[]int64
 	client     *nats.Conn
 }
 
@@ -133,7 +137,7 @@ func (h *h3) startNode(i int) error {
 	var err error
 	crashed := h.do(n.node, "start:"+n.id, func() {
 		n.srv = New(h.config(n, peers))
-		spy := &spyLogger{Logger: n.srv.logger, hits: h.logHits}
+		spy := &spyLogger{Logger: n.srv.logger, hits: h.logHits, fallbackHW: h.fallbackHW}
 		if h.verbose {
 			spy.sim = h.s
 		}
@@ -280,7 +284,7 @@ func runH3(t *testing.T, prog *hx.Program, dec *simrt.Decider, verbose bool, nse
 		return oc
 	}
 	defer os.RemoveAll(dir)
-	h := &h3{t: t, oc: oc, prog: prog, dir: dir, nextSim: 10, verbose: verbose, logHits: map[string]int{}}
+	h := &h3{t: t, oc: oc, prog: prog, dir: dir, nextSim: 10, verbose: verbose, logHits: map[string]int{}, fallbackHW: new([]int64)}
 	cfg := simrt.Config{
 		StickyPct:  int(prog.Param("sticky", 80)),
 		LockYield:  int(prog.Param("lockyield", 100)),
@@ -422,9 +426,31 @@ type spyLogger struct {
 	lblog.Logger
 	hits map[string]int
 	sim  *simrt.Sim // set in verbose runs
+	fallbackHW *[]int64
+}
+
+// fallbackTag: the suffix of the recorded finding "a follower that cannot reach its leader truncates to its own
+// stale high watermark", for a violation that concerns offset off: such a truncation (one that removed
+// something) must have happened in the run, to a high watermark below the offset. A run in which the
+// fallback was merely attempted, or cut back to a point at or above the offset, explains nothing.
+func (h *h3) fallbackTag(off int64) string {
+	if h.fallbackHW == nil {
+		return ""
+	}
+	for _, hw := range *h.fallbackHW {
+		if hw < off {
+			return "/after-hw-fallback-truncation"
+		}
+	}
+	return ""
 }
 
 func (l *spyLogger) Debugf(format string, v ...interface{}) {
+	if l.fallbackHW != nil && strings.HasPrefix(format, "Truncating log for partition %s to HW") && len(v) == 2 {
+		if hw, ok := v[1].(int64); ok {
+			*l.fallbackHW = append(*l.fallbackHW, hw)
+		}
+	}
 	if l.sim != nil && strings.HasPrefix(format, "Truncating log") {
 		l.sim.Logf("server log: "+format, v...)
 	}
